@@ -37,6 +37,64 @@ class SQLiteAlterTableSQLResult(AlterTableSQLResult):
     initial data, if needed by a new column.
     """
 
+    def _get_model_constraints(self, model, field_names):
+        """Return the constraints the model's table must keep.
+
+        These are the constraints in the model's signature that only refer
+        to fields found in ``field_names``. A constraint referring to any
+        other field is left to the operation that introduces it.
+
+        Args:
+            model (django_evolution.mock_models.MockModel):
+                The model for the table being rebuilt.
+
+            field_names (set of unicode):
+                The names of the fields the rebuilt table will have.
+
+        Returns:
+            list of django.db.models.constraints.BaseConstraint:
+            The constraints to define on the rebuilt table.
+        """
+        model_sig = getattr(model._meta, '_model_sig', None)
+
+        if model_sig is None:
+            return []
+
+        def _iter_q_field_names(q):
+            for child in q.children:
+                if isinstance(child, models.Q):
+                    for field_name in _iter_q_field_names(child):
+                        yield field_name
+                else:
+                    yield child[0].split('__')[0]
+
+                    if isinstance(child[1], models.F):
+                        yield child[1].name.split('__')[0]
+
+        supports_check_constraints = \
+            self.evolver.connection.features.supports_table_check_constraints
+        constraints = []
+
+        for constraint_sig in getattr(model_sig, 'constraint_sigs', []):
+            attrs = constraint_sig.attrs or {}
+            constraint_field_names = set(attrs.get('fields') or ())
+            constraint_field_names.update(attrs.get('include') or ())
+
+            for key in ('check', 'condition'):
+                if isinstance(attrs.get(key), models.Q):
+                    constraint_field_names.update(
+                        _iter_q_field_names(attrs[key]))
+
+            if (constraint_field_names.issubset(field_names) and
+                (supports_check_constraints or
+                 not issubclass(constraint_sig.type,
+                                models.CheckConstraint))):
+                constraints.append(constraint_sig.type(
+                    name=constraint_sig.name,
+                    **attrs))
+
+        return constraints
+
     def to_sql(self):
         """Return a list of SQL statements for the table rebuild.
 
@@ -59,7 +117,7 @@ class SQLiteAlterTableSQLResult(AlterTableSQLResult):
         deleted_columns = set()
         renamed_columns = {}
         replaced_fields = {}
-        added_constraints = []
+        new_constraints = None
         new_initial = {}
         reffed_renamed_cols = []
         added_field_db_indexes = []
@@ -127,7 +185,7 @@ class SQLiteAlterTableSQLResult(AlterTableSQLResult):
                 replaced_fields[column] = new_field
             elif op == 'ADD CONSTRAINTS':
                 needs_rebuild = True
-                added_constraints = item['constraints']
+                new_constraints = item['constraints']
             elif op == 'REBUILD':
                 # We're just rebuilding, not changing anything about it.
                 # This is used to get rid of auto-indexes from SQLite.
@@ -239,15 +297,34 @@ class SQLiteAlterTableSQLResult(AlterTableSQLResult):
 
         constraints_sql = []
 
-        if added_constraints:
+        if new_constraints is None:
+            # Nothing in this rebuild sets the table's constraints, so it
+            # must keep the ones the model has. They'd otherwise be lost
+            # along with the old table.
+            new_constraints = self._get_model_constraints(
+                model=model,
+                field_names=set(
+                    _field.name
+                    for _field in new_fields
+                ))
+
+        deferred_constraints_sql = []
+
+        if new_constraints:
             # Django >= 2.2
             with connection.schema_editor(collect_sql=True) as schema_editor:
-                for constraint in added_constraints:
+                for constraint in new_constraints:
                     constraint_sql = constraint.constraint_sql(model,
                                                                schema_editor)
 
                     if constraint_sql:
                         constraints_sql.append(constraint_sql)
+
+            # Some constraints (such as a conditional UniqueConstraint)
+            # can't be part of the table definition. The schema editor
+            # defers those to statements of their own, which have to run
+            # once the table is in place.
+            deferred_constraints_sql = list(schema_editor.collected_sql)
 
         sql.append((
             'CREATE TABLE %s (%s);'
@@ -381,6 +458,8 @@ class SQLiteAlterTableSQLResult(AlterTableSQLResult):
                     'CREATE UNIQUE INDEX %s ON %s (%s);'
                     % (qn(index_name), qn(table_name),
                        ', '.join(qn(_field.column) for _field in fields)))
+
+        sql += deferred_constraints_sql
 
         # We've added all the indexes above. Any that were already there
         # will be in the database state. However, if we've *specifically*
@@ -850,19 +929,14 @@ class EvolutionOperations(BaseEvolutionOperations):
         """
         alter_table_items = []
 
-        if to_add:
-            alter_table_items.append({
-                'op': 'ADD CONSTRAINTS',
-                'constraints': new_constraints,
-            })
-        else:
-            assert to_remove
+        assert to_add or to_remove
 
-            # We won't be explicitly dropping anything. We'll just be doing
-            # a normal table rebuild.
-            alter_table_items.append({
-                'op': 'REBUILD',
-            })
+        # The table is rebuilt with exactly the new list of constraints,
+        # whether this adds constraints, removes some of them, or both.
+        alter_table_items.append({
+            'op': 'ADD CONSTRAINTS',
+            'constraints': new_constraints,
+        })
 
         return SQLiteAlterTableSQLResult(
             evolver=self,
